@@ -6,20 +6,28 @@ PROP = "C16"
 DRIVER = "c16"
 MODEL = "C16"
 MODEL_QUALID = "Model.Reconnect.run_script"
-FORMAT = ("script [has_max; max; pred_mode(0 none,1 error flag,2 code even,3 never); policy(0 None,1 Fixed p1,2 Custom table,3 exponential p1..p2); p1; p2; retry_on_reconnect; nreq; L; "
-          "delay_ms x L (Custom: delay for attempt k); nreq blocks [(okind(0 ok,1 err flagged connection failure,2 err flagged other) payload gated(0 immediate,1 on Complete) ready(0 ok,1 error 100000+payload,2 pending until MakeReady)) x L]; "
-          "(op a)*] op 1=Poll a 2=Advance a(ms) 3=Complete a 4=MakeReady a 5=Call a. "
-          "trace: per event [r(-1 no poll,0 pending,1 Ok,2 Err,9 nothing to poll); kind(1 MaxAttemptsExceeded,2 ConnectionFailed,3 ConnectionFailedNoRetry,4 ServiceError); payload; attempts; wake mask; "
-          "published state(0 connected,1 disconnected,2 reconnecting); inner calls started; finished] ++ per request [ncalls; (start_ms, end_ms|-1) per inner call] ++ [calls on an instance not polled ready]")
-RULE = ("structured schedules (call / complete / poll / advance-by-the-delay / make-ready rounds over 1-3 requests sharing the published state, random omissions and late polls) "
-        "+ uniformly random event lists + all outcome streams up to a small length x max_attempts {0,1,2,none} x policy {none,fixed,custom,exponential} x retry flag x predicate; "
+FORMAT = ("script [has_max(bit0: 1 max_attempts(max), 0 unlimited; has_max//2: 0 one service per request, 1 all requests through one ReconnectService, 2 through clones of one); max; "
+          "pred_mode(0 none,1 error flag,2 code even,3 never); policy(0 None,1 Fixed p1,2 Custom table,3 exponential p1..p2 ms); p1; p2; retry_on_reconnect; nreq; L; "
+          "delay x L (Custom: delay for attempt k); nreq blocks [(okind(0 ok,1 err flagged connection failure,2 err flagged other) payload gated(0 immediate,1 on Complete) ready(0 ok,1 error 100000+payload,2 pending until MakeReady)) x L]; "
+          "(op a)*] op 1=Poll a 2=Advance a(ms) 3=Complete a 4=MakeReady a 5=Call a. Durations (p1 of Fixed, delay table): below 2^40 milliseconds, 2^40+n = n nanoseconds. "
+          "trace: per event [r(-1 no poll,0 pending,1 Ok,2 Err,5 poll panicked,9 nothing to poll); kind(1 MaxAttemptsExceeded,2 ConnectionFailed,3 ConnectionFailedNoRetry,4 ServiceError); payload; attempts; wake mask; "
+          "published state(0 connected,1 disconnected,2 reconnecting); inner calls started; finished; hash of the on_state_change `to` states of the event; hash of the on_reconnect attempt numbers] "
+          "++ per request [ncalls; (start_ms, end_ms|-1) per inner call] ++ [calls on an instance not polled ready]")
+RULE = ("structured schedules (call / complete / poll / advance-by-the-delay / make-ready rounds over 1-3 requests sharing the published state, random omissions and late polls; "
+        "requests through separate services, one shared service or its clones) + uniformly random event lists "
+        "+ all outcome streams up to a small length x max_attempts {0,1,2,none} x policy {none,fixed,custom,exponential} x retry flag x predicate "
+        "+ delays that are not whole milliseconds (1 ns .. 2.9 ms, polled every millisecond) + long delays (minutes to 2^36 ms, polled one millisecond before and at the deadline) "
+        "+ bursts of 130-300 zero-delay failures in one poll (tokio's cooperative budget of 128 per poll, incl. gated calls and a positive delay at the budget edge); "
         "non-trivial = some request saw a reconnectable failure (a reconnect decision is taken)")
-TRUSTED = ["tokio::time::sleep (ready iff now >= deadline at whole-ms instants), oneshot wake-ups: modelled, tied to the library only by this correspondence run",
+TRUSTED = ["tokio::time::sleep (ready at the first poll at or after the deadline rounded UP to a whole millisecond), oneshot wake-ups, and tokio's cooperative budget "
+           "(128 completed Sleep/oneshot operations per poll of a task; the next one returns Pending after waking the task itself): modelled in Lib/TokioTime.v + Model/Reconnect.v drive, tied to the library only by this correspondence run",
            "the scripted inner service, error type (Display-parsed by the predicates) and policy closures in harness/src/bin/c16.rs mirror Model/Reconnect.v run_script",
            "ReconnectPolicy::exponential modelled as min(initial * 2^attempt, max) for whole-ms values (the f64 arithmetic itself is C14)"]
-ASSUMPTIONS = ["whole-millisecond delays and instants", "fewer than 2^32 reconnectable failures per request (attempt: u32)",
-               "one poll makes boundedly many attempts (the model bounds the micro-steps of one poll; scripts stay below)",
-               "the jittered policy (ExponentialRandom) is covered by the theorems (any delay function) but not by the correspondence run"]
+ASSUMPTIONS = ["polls and clock advances happen at whole-millisecond instants (delays are arbitrary nanosecond values below 2^40 ms; Duration::MAX, which tokio turns into a 30-year sleep, is not driven)",
+               "fewer than 2^32 - 1 reconnectable failures per request (attempt: saturating u32 in the code, nat in the model)",
+               "every poll of a call future starts with the cooperative budget of a fresh task poll (128), as under any tokio executor; a future polled inside tokio::task::unconstrained is outside the model",
+               "the jittered policy (ExponentialRandom) is covered by the single-request theorems (any delay function of the attempt number) but not by the correspondence run; in the step machine all requests share one policy function",
+               "the `attempts` field and the variant of the returned ReconnectError are pinned by the model comparison only: the property asks for an error wrapping the last inner error"]
 
 
 def build(has_max, mx, pred, policy, p1, p2, retry, delays, reqs, evs):
@@ -34,12 +42,21 @@ def build(has_max, mx, pred, policy, p1, p2, retry, delays, reqs, evs):
     return s
 
 
+FLAG = 1 << 40
+MS = 1000000
+
+
+def ns_of(e):
+    """duration encoding shared with Lib/TokioTime.v and the driver"""
+    return max(0, e) * MS if e < FLAG else e - FLAG
+
+
 def parse(s):
     s = list(s) + [0] * max(0, 9 - len(s))
     has_max, mx, pred, policy, p1, p2, retry, n, L = s[:9]
     n, L = max(0, n), max(0, L)
     g = lambda i: s[i] if 0 <= i < len(s) else 0
-    delays = [max(0, g(9 + k)) for k in range(L)]
+    delays = [ns_of(g(9 + k)) for k in range(L)]
     blk = 4 * L
     reqs = []
     for i in range(n):
@@ -53,11 +70,11 @@ def parse(s):
             evs.append((op, a))
         elif op == 2:
             evs.append((op, a))
-    return dict(max=(max(0, mx) if has_max else None), pred=pred, policy=policy, p1=max(0, p1), p2=max(0, p2),
+    return dict(max=(max(0, mx) if has_max % 2 else None), handle=has_max // 2, pred=pred, policy=policy, p1=p1, p2=max(0, p2),
                 retry=retry != 0, n=n, L=L, delays=delays, reqs=reqs, evs=evs)
 
 
-W = 8
+W = 10
 
 
 def decode(s, t):
@@ -94,17 +111,29 @@ def reconnectable(p, e):
 
 
 def delay(p, attempt):
-    """ReconnectPolicy::delay_for_attempt restated; None = no delay"""
+    """ReconnectPolicy::delay_for_attempt restated, in nanoseconds; None = no delay"""
     if p["policy"] == 0:
         return None
     if p["policy"] == 1:
-        return p["p1"]
+        return ns_of(p["p1"])
     if p["policy"] == 2:
         return p["delays"][attempt] if attempt < p["L"] else 0
-    return min(p["p1"] * 2 ** attempt, p["p2"])
+    return min(max(0, p["p1"]) * 2 ** attempt, p["p2"]) * MS
 
 
 def monitor(s, t):
+    """C16 and nothing more: (a) at most max_attempts+1 inner calls (when limited); (b) a call is
+    retried only after an error the predicate classifies as a connection failure (and only when
+    retry_on_reconnect / the policy allow a retry at all); (c) the retry starts no earlier than the
+    failure + the policy's delay; (d) the future returns the first success, or an error carrying the
+    last inner error (which variant and its `attempts` counter are not the property's business; the
+    readiness error of the service before a retry is accepted, as the repaired code returns it);
+    it gives up after a connection failure only for a reason the statement allows (max_attempts,
+    no delay from the policy, retry_on_reconnect off, service not ready);
+    (e) the published state is connected right after a success, and - for ONE request, as the
+    statement says - not connected while a connection failure of that request is being handled.
+    Which non-connected value is published, the state before anything happened, after a
+    no-retry return etc. are pinned by the model comparison only."""
     d = decode(s, t)
     if d is None:
         return "malformed or panicking run: %s" % t[:12]
@@ -114,41 +143,24 @@ def monitor(s, t):
         return "inner service called %d times on an instance that was not polled ready" % viol
     returned = {}
     now = 0
-    state = 1           # ReconnectState starts disconnected
-    connected_seen = False
     for k, ((op, a), o) in enumerate(zip(p["evs"], evt)):
-        r, kind, payload, attempts, mask, cs, started, finished = o
+        r, kind, payload, attempts, mask, cs, started, finished = o[:8]
         if op == 2:
             now += max(0, a)
-        if op != 1:
-            if r != -1:
-                return "result outside a poll (event %d)" % k
-            if cs != state:
-                return "published state changed from %d to %d without a poll (event %d)" % (state, cs, k)
-        else:
+        if op == 1:
+            if r == 5:
+                return "request %d: the poll panicked instead of returning a result (event %d)" % (a, k)
             if r in (1, 2):
                 if a in returned:
                     return "request %d returned twice" % a
                 returned[a] = (r, kind, payload, attempts, k, now)
             if r == 1 and cs != 0:
                 return "request %d succeeded but the published state is %d, not connected" % (a, cs)
-            if r == 2 and kind == 3 and cs != 0:
-                return "ConnectionFailedNoRetry must leave the state connected for the next request"
-            if r == 2 and kind in (1, 2) and cs != 1:
-                return "kind %d error returned with published state %d (disconnected expected)" % (kind, cs)
-            if r in (1,) or (r == 2 and kind == 3):
-                connected_seen = True
-        if cs == 0 and not connected_seen:
-            return "published state connected although no request has succeeded (event %d)" % k
-        if n == 1:
-            # single request: the state is a function of what this request has seen
-            if finished == 0 and cs != 1:
-                return "state %d before any inner call finished" % cs
-            if finished >= 1 and 0 not in returned:
-                last = entry(p, 0, finished - 1)
-                if reconnectable(p, last) and cs != 2:
-                    return "a reconnectable failure is being handled (call %d) but the published state is %d" % (finished - 1, cs)
-        state = cs
+        if n == 1 and finished >= 1 and 0 not in returned:
+            # one request: it has observed the outcome of call finished-1 and has not returned
+            last = entry(p, 0, finished - 1)
+            if reconnectable(p, last) and cs == 0:
+                return "a connection failure is being handled (call %d) but the published state is connected (event %d)" % (finished - 1, k)
     for i in range(n):
         cs_ = calls[i]
         nc = len(cs_)
@@ -166,8 +178,8 @@ def monitor(s, t):
             st, en = cs_[k]
             if en < 0:
                 return "request %d: call %d started while call %d still in flight" % (i, k + 1, k)
-            if cs_[k + 1][0] < en + dl:
-                return "request %d: call %d started at %d, earlier than failure at %d + delay %d" % (i, k + 1, cs_[k + 1][0], en, dl)
+            if cs_[k + 1][0] * MS < en * MS + dl:
+                return "request %d: call %d started at %d ms, earlier than failure at %d ms + delay %d ns" % (i, k + 1, cs_[k + 1][0], en, dl)
         if i in returned:
             r, kind, payload, attempts, k, tret = returned[i]
             if nc < 1:
@@ -176,24 +188,19 @@ def monitor(s, t):
             if cs_[nc - 1][1] < 0:
                 return "request %d returned while its last inner call was in flight" % i
             if last[0] == 0:
-                exp = (1, 0, last[1], 0)
-            elif not reconnectable(p, last):
-                exp = (2, 4, last[1], 0)
-            elif p["max"] is not None and nc > p["max"]:
-                exp = (2, 1, last[1], nc)
-            elif delay(p, nc) is None:
-                exp = (2, 2, last[1], 0)
-            elif not p["retry"]:
-                exp = (2, 3, last[1], 0)
-                if tret < cs_[nc - 1][1] + delay(p, nc):
-                    return "request %d: ConnectionFailedNoRetry returned before the delay elapsed" % i
+                exp = (1, last[1])
+            elif (not reconnectable(p, last) or (p["max"] is not None and nc > p["max"])
+                  or delay(p, nc) is None or not p["retry"]):
+                exp = (2, last[1])
             else:
                 nxt = entry(p, i, nc)
                 if nxt[3] != 1:
-                    return "request %d gave up after a reconnectable failure (attempt %d) although it must retry" % (i, nc)
-                exp = (2, 4, 100000 + nxt[1], 0)
-            if (r, kind, payload, attempts) != exp:
-                return "request %d returned %s, specified %s" % (i, (r, kind, payload, attempts), exp)
+                    return "request %d gave up after a connection failure (attempt %d) although it must retry" % (i, nc)
+                if (r, payload) == (2, last[1]):
+                    continue          # the last inner error is as good as the readiness error
+                exp = (2, 100000 + nxt[1])
+            if (r, payload) != exp:
+                return "request %d returned %s, the last outcome it observed is %s" % (i, (r, payload), exp)
     return None
 
 
@@ -220,6 +227,27 @@ def corpus():
     # readiness error / pending readiness; two requests share the state
     out.append(build(1, 5, 0, 1, 1, 0, 1, [0, 0, 0], [[e(1, 1), e(0, 2, 0, 1), e(0, 3)], [e(1, 11, 1), e(0, 12, 1, 2), e(0, 13)]],
                      [(1, 0), (1, 1), (3, 1), (1, 1), (2, 1), (1, 0), (1, 1), (4, 1), (1, 1), (3, 1), (1, 1)]))
+    # delays of 1 ns, 0.999999 ms, 1.000001 ms, 1.9 ms (Custom): the timer fires at the next whole millisecond
+    out.append(build(0, 0, 0, 2, 0, 0, 1, [0, FLAG + 1, FLAG + 999999, FLAG + 1000001, FLAG + 1900000, FLAG + 0],
+                     [[e(1, 1), e(1, 2), e(1, 3), e(1, 4), e(1, 5), e(0, 6)]],
+                     [(1, 0), (1, 0), (2, 1), (1, 0), (1, 0), (2, 1), (1, 0), (2, 1), (1, 0), (2, 1), (1, 0), (2, 1), (1, 0), (2, 1), (1, 0), (2, 1), (1, 0)]))
+    # Fixed 0.5 ms
+    out.append(build(1, 3, 0, 1, FLAG + 500000, 0, 1, [0, 0, 0], [[e(1, 1), e(1, 2), e(0, 3)]], [(1, 0), (1, 0), (2, 1), (1, 0), (2, 1), (1, 0)]))
+    # one minute, one hour, 2^36 ms
+    out.append(build(0, 0, 0, 2, 0, 0, 1, [0, 61000, 3600000, 2 ** 36 + 7], [[e(1, 1), e(1, 2), e(1, 3), e(0, 4)]],
+                     [(1, 0), (2, 60999), (1, 0), (2, 1), (1, 0), (2, 3599999), (1, 0), (2, 1), (1, 0), (2, 2 ** 36), (1, 0), (2, 6), (1, 0), (2, 1), (1, 0)]))
+    # 150 immediate connection failures, zero delay, unlimited: the first poll stops at the 129th sleep (cooperative budget)
+    out.append(build(0, 0, 0, 1, 0, 0, 1, [0] * 150, [[e(1, k) for k in range(150)]], [(1, 0), (1, 0), (1, 0)]))
+    out.append(build(0, 0, 0, 1, 0, 0, 1, [0] * 150, [[e(1, k, 1 if k in (0, 127) else 0) for k in range(150)]],
+                     [(1, 0), (3, 0), (1, 0), (3, 0), (1, 0), (1, 0)]))
+    out.append(build(0, 0, 0, 2, 0, 0, 1, [0] * 129 + [3] + [0] * 20, [[e(1, k) for k in range(150)]],
+                     [(5, 0), (1, 0), (1, 0), (2, 3), (1, 0), (1, 0)]))
+    # two requests through ONE ReconnectService / through clones of it
+    for hm in (1, 2):
+        out.append(build(1 + 2 * hm, 5, 0, 1, 1, 0, 1, [0, 0, 0], [[e(1, 1), e(0, 2, 0, 1), e(0, 3)], [e(1, 11, 1), e(0, 12, 1, 2), e(0, 13)]],
+                         [(1, 0), (1, 1), (3, 1), (1, 1), (2, 1), (1, 0), (1, 1), (4, 1), (1, 1), (3, 1), (1, 1)]))
+    # one request fails and sleeps, the other succeeds: the shared state reads connected meanwhile (the state clause is per request)
+    out.append(build(0, 0, 0, 1, 10, 0, 1, [0, 0], [[e(0, 1), e(0, 2)], [e(1, 11), e(0, 12)]], [(1, 1), (1, 0), (2, 10), (1, 1)]))
     return out
 
 
@@ -236,7 +264,7 @@ def rand_entries(rng, i, L, p_ok, p_gated, p_rdy):
 def random_header(rng):
     n = rng.choice([1, 1, 1, 2, 2, 3])
     L = rng.randint(1, 6)
-    has_max = rng.choice([0, 1, 1, 1])
+    has_max = rng.choice([0, 1, 1, 1]) + 2 * rng.choice([0, 0, 0, 1, 2])
     mx = rng.choice([0, 1, 1, 2, 2, 3, 5])
     pred = rng.choice([0, 0, 0, 1, 1, 1, 2, 3])
     policy = rng.choice([0, 1, 1, 2, 2, 2, 3])
@@ -305,6 +333,81 @@ def unstructured(rng, maxlen=40):
     return build(*h, evs)
 
 
+SUB_MS = [1, 400000, 999999, 1000001, 1500000, 1900000, 2000001, 2999999, 900000, 500]
+LONG_MS = [65, 1000, 61000, 120000, 3600000, 86400000, 2 ** 31, 2 ** 32 + 1, 2 ** 36 + 7]
+
+
+def submilli(rng):
+    """delays that are not whole milliseconds (Fixed or Custom); polled every millisecond"""
+    n = rng.choice([1, 1, 2])
+    L = rng.randint(2, 5)
+    policy = rng.choice([1, 2, 2])
+    p1 = FLAG + rng.choice(SUB_MS)
+    delays = [FLAG + rng.choice(SUB_MS) for _ in range(L)]
+    if rng.random() < 0.3:
+        delays[rng.randrange(L)] = rng.choice([0, 1, 2])
+    reqs = []
+    for i in range(n):
+        nf = rng.randint(1, L)
+        reqs.append([((1 if k < nf else 0), 100 * i + 10 * k + rng.randrange(10), 1 if rng.random() < 0.3 else 0, 0) for k in range(L)])
+    evs = []
+    for _ in range(L + 1):
+        for i in range(n):
+            evs += [(3, i), (1, i)]
+            for _ in range(rng.choice([3, 4])):
+                evs += [(2, 1), (1, i)]
+    retry = rng.choice([1, 1, 1, 0])
+    return build(rng.choice([0, 1, 2, 3, 4, 5]), L + 1, 0, policy, p1, 0, retry, delays, reqs, evs)
+
+
+def long_delays(rng):
+    """delays of minutes .. 2^36 ms (Custom table): pending one millisecond before the deadline, retried at it"""
+    L = rng.randint(2, 4)
+    dms = [0] + [rng.choice(LONG_MS) for _ in range(L - 1)]
+    ent = [(1, 10 * k + 1, 1 if rng.random() < 0.3 else 0, 0) for k in range(L - 1)] + [(0, 99, 0, 0)]
+    evs = [(3, 0), (1, 0)]
+    for b in dms[1:]:
+        cut = max(1, min(rng.choice([1, 1, 2, 60, b // 2]), b - 1))
+        evs += [(2, b - cut), (1, 0), (2, cut - 1), (1, 0), (2, 1), (3, 0), (1, 0), (3, 0), (1, 0)]
+    return build(rng.choice([0, 1]), L + 1, 0, 2, 0, 0, rng.choice([1, 1, 0]), dms, [ent], evs)
+
+
+def coop_burst(rng):
+    """130-300 immediately failing calls with zero delay: one poll can complete only 128 sleeps"""
+    n = rng.choice([1, 1, 1, 2])
+    L = rng.randint(130, 300)
+    policy = rng.choice([1, 2, 2, 3])
+    delays = [0] * L
+    for _ in range(rng.choice([0, 0, 1, 2])):
+        delays[rng.choice([127, 128, 129, 130, rng.randrange(L)])] = rng.choice([1, 3, FLAG + 500000])
+    has_max = rng.choice([0, 0, 1])
+    mx = rng.choice([L + 50, 400, 200, 129, 128, 127])
+    reqs = []
+    for i in range(n):
+        gated_at = set(rng.sample(range(L), rng.choice([0, 0, 0, 1, 2])))
+        if rng.random() < 0.4:
+            gated_at |= {rng.choice([0, 126, 127, 128, 129])}
+        nf = rng.choice([L, L, rng.randint(100, L)])
+        rdy_at = rng.choice([-1, -1, -1, -1, 1, 128, 129, rng.randrange(L)])
+        reqs.append([((1 if k < nf else 0), 1000 * i + k, 1 if k in gated_at else 0,
+                      (rng.choice([1, 2, 2]) if k == rdy_at else 0)) for k in range(L)])
+    evs = []
+    for _ in range(rng.randint(4, 14)):
+        i = rng.randrange(n)
+        x = rng.random()
+        if x < 0.5:
+            evs.append((1, i))
+        elif x < 0.7:
+            evs += [(3, i), (1, i)]
+        elif x < 0.85:
+            evs += [(2, rng.choice([1, 3])), (1, i)]
+        elif x < 0.93:
+            evs += [(4, i), (1, i)]
+        else:
+            evs.append((5, i))
+    return build(has_max + 2 * rng.choice([0, 0, 1, 2]), mx, 0, policy, 0, rng.choice([0, 0, 5]), 1, delays, reqs, evs)
+
+
 def exhaustive(maxlen, maxes, policies, retries=(0, 1), preds=(0, 1)):
     """every outcome stream up to maxlen over {ok, connection failure, other error}: one request, prompt polling"""
     for L in range(1, maxlen + 1):
@@ -328,10 +431,16 @@ def generate(rng, tier):
         out += [structured(rng) for _ in range(1300)]
         out += [unstructured(rng) for _ in range(400)]
         out += list(exhaustive(3, (0, 1, 2, None), (0, 1, 2, 3), retries=(0, 1), preds=(1,)))
+        out += [submilli(rng) for _ in range(150)]
+        out += [long_delays(rng) for _ in range(60)]
+        out += [coop_burst(rng) for _ in range(80)]
     else:
         out += [structured(rng) for _ in range(30000)]
         out += [unstructured(rng, 80) for _ in range(10000)]
         out += list(exhaustive(5, (0, 1, 2, None), (0, 1, 2, 3)))
+        out += [submilli(rng) for _ in range(3000)]
+        out += [long_delays(rng) for _ in range(1000)]
+        out += [coop_burst(rng) for _ in range(600)]
     return out
 
 
@@ -351,10 +460,18 @@ def classify(s, t):
     d = decode(s, t)
     p = parse(s)
     out = ["nreq%d" % p["n"], "max_%s" % ("none" if p["max"] is None else min(p["max"], 3)), "pred%d" % p["pred"],
-           "policy%d" % p["policy"], "retry_%s" % ("on" if p["retry"] else "off")]
+           "policy%d" % p["policy"], "retry_%s" % ("on" if p["retry"] else "off"), "handle_mode_%d" % p["handle"]]
+    ds = ([ns_of(p["p1"])] if p["policy"] == 1 else p["delays"] if p["policy"] == 2 else [])
+    if any(x % MS for x in ds):
+        out.append("has_submillisecond_delay")
+    if any(x >= 60000 * MS for x in ds):
+        out.append("has_delay_of_a_minute_or_more")
     if d:
         _, evt, calls, _ = d
-        out.append("most_calls_%d" % min(max([len(c) for c in calls] + [0]), 5))
+        m = max([len(c) for c in calls] + [0])
+        out.append("most_calls_%s" % (min(m, 5) if m < 129 else "129plus"))
+        if any(o[0] == 0 and o[4] & (1 << a) for (op, a), o in zip(p["evs"], evt) if op == 1):
+            out.append("poll_ended_self_woken_(coop_budget)")
         for o in evt:
             if o[0] == 1:
                 out.append("saw_ok")
